@@ -265,6 +265,7 @@ impl World {
             outq: self.outq.iter().map(|o| !o.is_empty()).collect(),
             plain488: self.cfg.plain488,
             no_mav: self.cfg.no_mav,
+            prefill: self.prefill.clone(),
         }
     }
 
